@@ -721,6 +721,18 @@ func (x *Exec) decodeInto(st *State, pre *State, arg Val, src ssa.Value, fr *Fra
 		}
 	}
 	if pt == nil {
+		// an interface value that was boxed earlier on this path (e.g. `var v interface{}; switch ... { v = r.Query }`):
+		// the path's term is (mkIface <type id> <ref>) with a constant type id
+		var id int
+		var payload string
+		if n, _ := fmt.Sscanf(arg.Term, "(mkIface %d ", &id); n == 1 && id >= 1 && id <= len(x.C.typeByID) && strings.HasSuffix(arg.Term, ")") {
+			if p, ok := x.C.typeByID[id-1].Underlying().(*types.Pointer); ok {
+				payload = strings.TrimSuffix(strings.TrimPrefix(arg.Term, fmt.Sprintf("(mkIface %d ", id)), ")")
+				pt, ref = p, payload
+			}
+		}
+	}
+	if pt == nil {
 		// dynamic type unknown: anything may have been written
 		x.abstr["decoder target of unknown dynamic type"] = true
 		st.taint = true
